@@ -19,6 +19,9 @@ fn main() {
     let args = Args::parse();
     subject::install_hooks();
     subject::set_seed(args.seed);
+    if args.extra.get("exact-rayon").map(|s| s.as_str()) == Some("1") {
+        lanes::EXACT_RAYON.store(true, std::sync::atomic::Ordering::SeqCst);
+    }
     vcommon::silence_panics();
     if let Err(e) = b3spec::self_check() {
         eprintln!("ORACLE-ANCHOR-FAILED: {}", e);
